@@ -461,8 +461,8 @@ def nontrivial_ctls(c, o):
 
 SEKINDS = ["list", "tuple", "deque", "gen", "iter", "iteronly", "stream", "thub"]
 SVIAS = ["iter", "stream", "map", "copy", "thub"]
-MUTABLE_ZERO = False   # zero=[] / bytearray(): the unchanged code updates the zero object in place (data = zero; data +=
-                       # item), every sample then holds everything played so far - reported to the orchestrator
+MUTABLE_ZERO = True    # zero=[] / bytearray(): in scope since /repo 84870a8 (data = data + item): every sample is a fresh
+                       # object equal to zero + items in add order, the zero object itself is unchanged afterwards
 
 
 def seq_history(rng, nev, mk_items, overlap):
